@@ -167,6 +167,16 @@ def curve_case(rep, spec, index, tmp):
     same_comment = (comment is None and (b.comments is None or (isinstance(b.comments, float) and math.isnan(b.comments)))) or \
         (how == "ideal") or str(b.comments) == str(comment)
     rep.require("curve: comment survives the round trip", same_comment, case, {"loaded": repr(b.comments)})
+    if index % 3 == 0:
+        # the file name is used again for another curve (results.csv overwritten by the next experiment): loading it must
+        # give what is in the file now
+        second = DiffusionCurve(mixture=mix, membrane_name=mname, feed_temperature=t, feed_compositions=list(curve.feed_compositions),
+                                partial_fluxes=[(2.0 * float(f[0]) + 1e-6, 3.0 * float(f[1]) + 1e-6) for f in curve.partial_fluxes])
+        second.save(path)
+        again = DiffusionCurveSet.load(path).diffusion_curves
+        ok = len(again) == 1 and all(close(float(second.partial_fluxes[i][c]), float(again[0].partial_fluxes[i][c])) for i in range(k) for c in (0, 1))
+        rep.require("a file name used again: loading returns what the file holds now", ok, dict(case, reuse="curve path"),
+                    {"expected_first_flux": [float(v) for v in second.partial_fluxes[0]], "loaded_first_flux": [float(v) for v in again[0].partial_fluxes[0]] if again else None})
 
 
 # ------------------------------------------------------------------------------------------------ functions and conditions
@@ -199,6 +209,13 @@ def func_case(rep, spec, index, tmp):
                      "loaded": [g.n, g.m, float(g.alpha), [float(v) for v in g.a], [float(v) for v in g.b]]})
         x, t = rng.uniform(0, 1), rng.uniform(280, 380)
         rep.require(f"function ({mode}): loaded function evaluates identically", close(float(f(x, t)), float(g(x, t))), dict(case, mode=mode))
+        if index % 3 == 0:
+            # the same file name used again for another function
+            f2 = PervaporationFunction.from_array([arr[0] * 2.5] + [v + 0.5 for v in arr[1:]], n=n, m=m)
+            (f2.save if mode == "binary" else f2.safe_save)(path)
+            g2 = load(path)
+            rep.require("a file name used again: loading returns what the file holds now", close(f2.alpha, g2.alpha) and all(close(u, v) for u, v in zip(f2.b, g2.b)),
+                        dict(case, mode=mode, reuse="function path"), {"expected_alpha": float(f2.alpha), "loaded_alpha": float(g2.alpha)})
     # conditions
     basis = rng.choice(["weight", "molar"])
     mode = rng.choice(["V", "T", "P"])
@@ -214,6 +231,13 @@ def func_case(rep, spec, index, tmp):
         close(cond.initial_feed_amount, c2.initial_feed_amount) and close(cond.initial_feed_composition.p, c2.initial_feed_composition.p, 1e-12) and \
         cond.initial_feed_composition.type == c2.initial_feed_composition.type and close(cond.permeate_temperature, c2.permeate_temperature) and \
         close(cond.permeate_pressure, c2.permeate_pressure)
+    if index % 3 == 0:
+        cond_b = Conditions(membrane_area=cond.membrane_area * 2, initial_feed_temperature=cond.initial_feed_temperature + 1.5, initial_feed_amount=cond.initial_feed_amount * 3,
+                            initial_feed_composition=cond.initial_feed_composition, permeate_temperature=cond.permeate_temperature, permeate_pressure=cond.permeate_pressure)
+        cond_b.safe_save(path)
+        c3 = Conditions.safe_load(path)
+        rep.require("a file name used again: loading returns what the file holds now", close(c3.membrane_area, cond_b.membrane_area) and close(c3.initial_feed_temperature, cond_b.initial_feed_temperature),
+                    dict(case, reuse="conditions path"), {"expected_area": cond_b.membrane_area, "loaded_area": c3.membrane_area})
     rep.require("conditions (JSON): save -> load returns the same conditions", ok, dict(case, conditions=gen.describe_conditions(cond)),
                 {"loaded": gen.describe_conditions(c2)})
     # ... and the loaded object BEHAVES like the original: the same process model from both (the programme is not stored)
